@@ -152,6 +152,19 @@ def run(ctx, rep):
         if st != 0 or devs != want:
             rep.fail("oracle", "discover-raised" if st else "answering-device-not-reported:auto-connect",
                      {"auto_connect": True, "dgrams": [(t, h, p, d.hex()) for t, h, p, d in dg]}, {"status": st, "reported": devs, "advertised": want})
+    # discover_single(host): the probe goes to one host, named by IP literal or by HOSTNAME; the device that answers is the result
+    for g in replies[:: (7 if not ctx.deep else 2)]:
+        for host in (S.ip_of(g[0]), "ac-livingroom.local", "localhost"):
+            dg = [(rng.randrange(0, 4000), g[0], 6445, g[7])]
+            st, devs, probes, _ = S.run_impl(dg, single=host)
+            rep.case(("single", host, g[1], g[2]), "discover-single-" + ("ip" if host[0].isdigit() else "hostname"))
+            want = [(g[0], g[3], g[1], g[4], int(g[4] == 0xAC), g[2], tuple(g[6]), tuple(g[5]))]
+            inp = {"discover_single": host, "dgrams": [(t, h, p, d.hex()) for t, h, p, d in dg]}
+            if st != 0 or devs != want:
+                rep.fail("oracle", "discover-raised" if st else "answering-device-not-reported:discover-single", inp,
+                         {"status": st, "reported": devs, "advertised": want})
+            elif any(t != host for _, _, t in probes):
+                rep.fail("oracle", "probe-sequence:discover-single", inp, {"probe_targets": sorted({t for _, _, t in probes})})
     # repeated runs in one process: the same hosts answer every run and must be reported every run
     for rnd in range(ctx.n(6, 60)):
         group = [g for g in rng.sample(replies, 3)]
